@@ -330,6 +330,20 @@ def run(chk):
         feats = ["functions", "inlines", "lets", "destructure", "captures", "constants", "literals", "qq", "assign"]
         progs = compilers.gen_programs(rng, d, n, nargs=1, features=feats)
         progs = [p for p in progs if p["nfns"] > 0] or progs[:1]
+        # a (mod …) used as an expression in the main body (compiled by a nested codegen run): the outer
+        # program's entries must survive it
+        L, S, I = progen.L, progen.S, progen.I
+        for p in list(progs[: max(4, len(progs) // 6)]):
+            forms = list(p["tree"][1])
+            inner = L(S("mod"), L(S("Z")), L(S("defun"), S("inner_sq"), L(S("Q")), L(S("*"), S("Q"), S("Q"))),
+                      L(S("inner_sq"), S("Z")))
+            forms[-1] = L(S("c"), L(S("a"), inner, L(S("list"), I(rng.randint(2, 9)))), forms[-1])
+            q = dict(p)
+            q["tree"] = ("list", forms, None)
+            q["text"] = progen.text(q["tree"])
+            q["rich"] = progen.rich(q["tree"])
+            q["features"] = list(p["features"]) + ["nested-mod-in-main"]
+            progs.append(q)
         for entry in ("file:000", "text:O0", "text:O1"):
             lines = [f"{entry} {p['text'].encode().hex()}" for p in progs]
             outs = lib.run_impl("syms", lines, timeout=60, per_job=4)
